@@ -1561,6 +1561,19 @@ class Gen:
             for lg in t2.log:
                 lg['at'] = f'{it.file}:{l0}-{l1}'
             tx.log += t2.log
+        # R9a (automatic): every remaining arm `P1 | P2 if G => B` is split the same way (Verus rejects the combined form); an arm
+        # pattern starting with a leading `|` is left alone.  Bounded number of passes; a failure to parse leaves the text as it is.
+        for _ in range(24):
+            try:
+                t2 = Text(rendered, 0, len(rendered), it.file)
+                if not self.apply_split_or_arm(t2, Ann(kind='split_or_arm', arg='\x00auto'), region):
+                    break
+                rendered = t2.render()
+                for lg in t2.log:
+                    lg['at'] = f'{it.file}:{l0}-{l1}'
+                tx.log += t2.log
+            except SpecError:
+                break
         for h_ in hoisted:
             self.emit(h_.rstrip('\n') + '\n')
         self.emit(header)
@@ -1633,8 +1646,21 @@ class Gen:
                     k -= 1
                 a0 = (last_close if last_close is not None else j) + 1
                 header = norm(src[ct[a0].start:t.start])
-                if header == want:
+                if want == '\x00auto':
+                    # R9a (automatic): any arm whose header has a depth-0 `|` before a depth-0 `if`
+                    dd = 0; gi = None; nb = 0
+                    for q in range(a0, i):
+                        tq = ct[q]
+                        if tq.kind == 'punct' and tq.text in rl.OPEN: dd += 1
+                        elif tq.kind == 'punct' and tq.text in rl.CLOSE: dd -= 1
+                        elif dd == 0 and tq.kind == 'id' and tq.text == 'if' and gi is None: gi = q
+                        elif dd == 0 and tq.kind == 'punct' and tq.text == '|' and gi is None and q > a0: nb += 1
+                    if gi is not None and nb > 0 and dd == 0 and not hits:
+                        hits.append((a0, i))
+                elif header == want:
                     hits.append((a0, i))
+        if want == '\x00auto' and not hits:
+            return False
         if len(hits) != 1:
             raise SpecError(f'LOST-ANCHOR: {region}: or-arm <<{a.arg}>> found {len(hits)} times')
         a0, arrow = hits[0]
@@ -1672,6 +1698,7 @@ class Gen:
             end_idx = k
         repl = '\n'.join(f'{alt} {guard} => {body}' for alt in alts)
         tx.edit(ct[a0].start, ct[end_idx].end, repl, 'R9', 'or-pattern with guard split into one arm per alternative')
+        return True
 
     def apply_dropstmt(self, tx, a, region):
         """@dropstmt <<anchor>>: delete the whole (possibly multi-line) statement that starts at the unique
@@ -1929,6 +1956,17 @@ class Gen:
         for n_, (pos, text) in enumerate(inserts):
             sub.edits.append((pos, pos, MARK % n_))
         rendered = sub.render().strip('\n') + '\n'
+        for _ in range(24):      # R9a (automatic), as in emit_item
+            try:
+                t2 = Text(rendered, 0, len(rendered), it.file)
+                if not self.apply_split_or_arm(t2, Ann(kind='split_or_arm', arg='\x00auto'), region):
+                    break
+                rendered = t2.render()
+                for lg in t2.log:
+                    lg['at'] = f'{it.file}:{l0}-{l1}'
+                self.dropped += t2.log
+            except SpecError:
+                break
         if it.opts.get('block'):
             self.emit(f'// @src {it.file}:{l0}-{l1} sha256={sha} lifted statement block of {it.sel} [R5b]\n')
         else:
